@@ -31,7 +31,7 @@ def run(name):
         res = {}
         for pid in props_for(name):
             q = subprocess.run([os.path.join(VERIF, "check"), pid, "quick"], env=env, capture_output=True, text=True, timeout=3600)
-            res[pid] = q.returncode
+            res[pid] = q.returncode if not (q.returncode == 1 and "VIOLATION property=" not in q.stdout) else 2
         return name, res
     finally:
         shutil.rmtree(d, ignore_errors=True)
